@@ -83,7 +83,8 @@ class BluePrint:
         # Infer names from signature if not given, i.e. allow for '' names
         for ii, name in enumerate(namelist):
             if isinstance(funlist[ii], str):
-                namelist[ii] = funlist[ii]
+                if name == "":
+                    namelist[ii] = funlist[ii]
             elif name == "":
                 namelist[ii] = funlist[ii].__name__
 
